@@ -104,6 +104,6 @@ def run (args : Json) : Except String Json := do
   let res := match r with
     | .ok vs => Json.mkObj [("ok", Json.arr (vs.map valToJson).toArray)]
     | .error e => Json.mkObj [("err", errToJson e)]
-  pure (Json.mkObj [("result", res), ("log", Json.arr (s.log.reverse.map (fun (n : Nat) => Json.num (JsonNumber.fromNat n))).toArray)])
+  pure (Json.mkObj [("valid", Json.bool (validateOk g nodes.length)), ("result", res), ("log", Json.arr (s.log.reverse.map (fun (n : Nat) => Json.num (JsonNumber.fromNat n))).toArray)])
 
 end LK.Driver.C02
